@@ -107,15 +107,40 @@ class SymMsg:
         return "<SymMsg>"
 
 
+class SharedEnv:
+    """environment outcomes (clock readings, generated ids, random draws) shared by the runs of a
+    two-run product: the k-th draw of a kind in a phase is the same term in every run"""
+
+    def __init__(self):
+        self.q = {}
+
+    def draw(self, w, kind, make):
+        key = (w.phase, kind)
+        lst = self.q.setdefault(key, [])
+        i = w.env_pos.get(key, 0)
+        w.env_pos[key] = i + 1
+        if i < len(lst):
+            return lst[i], False
+        v = make()
+        lst.append(v)
+        return v, True
+
+
 class Clock:
     def __init__(self, w):
         self.w, self.last, self.values = w, None, []
+        self.frozen = None
 
     def time(self):
         e = E()
-        d = z3.Real(e.name("dt"))
-        e.assume(d >= 0)
-        t = d if self.last is None else self.last + d
+        if self.frozen is not None:
+            t = self.frozen
+        else:
+            def make():
+                d = z3.Real(e.name("dt"))
+                e.assume(d >= 0)
+                return d if self.last is None else self.last + d
+            t, _ = self.w.env.draw(self.w, "clock", make)
         self.last = t
         self.values.append(t)
         self.w.script_env("clock", SNum(t))
@@ -131,11 +156,10 @@ class RandomStub:
         if not seq:
             raise IndexError("Cannot choose from an empty sequence")
         e = E()
-        if all(isinstance(x, str) for x in seq):
-            r = e.sym_str("rchoice")
-            e.assume(z3.Or(*[r.z == Z(x) for x in seq]))
-        else:
+        if not all(isinstance(x, str) for x in seq):
             raise Unsupported("random.choice over non-strings")
+        r, new = self.w.env.draw(self.w, "choice", lambda: e.sym_str("rchoice"))
+        e.assume(z3.Or(*[r.z == Z(x) for x in seq]))
         self.w.script_env("choice", r)
         return r
 
@@ -143,7 +167,7 @@ class RandomStub:
         if b is None:
             a, b = 0, a
         e = E()
-        r = e.sym_int("rrange")
+        r, new = self.w.env.draw(self.w, "randrange", lambda: e.sym_int("rrange"))
         e.assume(z3.And(r.z >= a, r.z < b))
         self.w.script_env("randrange", r)
         return r
@@ -162,9 +186,11 @@ class Bundle:
 
 
 class SymWorld:
-    def __init__(self, e, allow_list=True, blur=None, usage=False, welcome=None, label="w"):
+    def __init__(self, e, allow_list=True, blur=None, usage=False, welcome=None, label="w", env=None):
         self.e = e
         self.label = label
+        self.env = env or SharedEnv()
+        self.env_pos = {}
         self.script = []          # replayable actions
         self.obs = []             # observations in order
         self.cfg = dict(allow_list=allow_list, blur=blur, usage=usage, welcome=welcome or {})
@@ -286,7 +312,7 @@ class SymWorld:
     # ---- environment ----
     def fresh_mailbox_id(self):
         e = E()
-        r = e.sym_str("newmid")
+        r, new = self.env.draw(self, "mailbox_id", lambda: e.sym_str("newmid"))
         for tb, col in (("mailboxes", "id"), ("messages", "mailbox_id"), ("mailbox_sides", "mailbox_id"),
                         ("nameplates", "mailbox_id")):
             for row in self.db.tables[tb].rows:
@@ -438,12 +464,12 @@ class SymWorld:
         self.bundles.append(b)
         return b
 
-    def assume_bundle_inv(self):
+    def assume_bundle_inv(self, next_npid=None):
         """INV_DB on the bundle terms (assumed before the setup phase so that registry look-ups
         with these keys are already decided)"""
         e = self.e
         B = self.bundles
-        self.next_npid = e.sym_int("next_npid")
+        self.next_npid = next_npid if next_npid is not None else e.sym_int("next_npid")
         for i, b in enumerate(B):
             if i > 0:
                 e.assume(z3.Implies(b.p, B[i - 1].p))             # symmetry breaking
